@@ -94,12 +94,15 @@ class Curve(SplineObject):
         if not self.rational or d < 2 or d > 3:
             return super(Curve, self).derivative(t, d=d, above=above, tensor=tensor)
 
+        squeeze = is_singleton(t)
+        if not is_singleton(above):
+            above = above[0]
         t = ensure_listlike(t)
         result = np.zeros((len(t), self.dimension))
 
         d2 = np.array(self.bases[0].evaluate(t, 2, above) @ self.controlpoints)
         d1 = np.array(self.bases[0].evaluate(t, 1, above) @ self.controlpoints)
-        d0 = np.array(self.bases[0].evaluate(t) @ self.controlpoints)
+        d0 = np.array(self.bases[0].evaluate(t, 0, above) @ self.controlpoints)
         W  = d0[:, -1]  # W(t)
         W1 = d1[:, -1]  # W'(t)
         W2 = d2[:, -1]  # W''(t)
@@ -119,7 +122,7 @@ class Curve(SplineObject):
                 G1 =  H2*W - 2*H*W2 - H1*W1
                 result[:, i] = (G1*W - 3*G*W1) /W/W/W/W
 
-        if result.shape[0] == 1:  # in case of single value input t, return vector instead of matrix
+        if squeeze:  # in case of single value input t, return vector instead of matrix
             result = np.array(result[0, :]).reshape(self.dimension)
 
         return result
